@@ -15,6 +15,7 @@ import Mathlib.Tactic.Ring
 import Mathlib.Tactic.Linarith
 import Mathlib.Tactic.FieldSimp
 import Mathlib.Data.List.Induction
+import Mathlib.Data.List.Nodup
 
 namespace AITB.Tree
 
@@ -863,6 +864,76 @@ theorem Sim.zInv {m : Mdl} {H : Nat} {t t' : Tree} {p : Path} {s depth : Nat} {u
     have h2 := ih h1 (hm rfl).2.1
     exact h2.update p _ _ (hS.ex_mono p (exd hd hex))
 
+/-! ### `nodes` lists exactly the existing nodes, each once (what the driver's node-count comparison relies on) -/
+
+structure NodesInv (t : Tree) : Prop where
+  mem : ∀ q, q ∈ t.nodes ↔ t.ex q = true
+  nodup : t.nodes.Nodup
+
+theorem NodesInv.of_eq {t t1 : Tree} (h : NodesInv t) (e1 : t1.ex = t.ex) (e2 : t1.nodes = t.nodes) : NodesInv t1 :=
+  ⟨fun q => by rw [e1, e2]; exact h.mem q, by rw [e2]; exact h.nodup⟩
+
+theorem NodesInv.descend {m : Mdl} {H : Nat} {t t1 : Tree} {p : Path} {depth : Nat} {st : Step} {mode : Mode}
+    (h : NodesInv t) (hd : descend m H t p depth st = some (t1, mode)) : NodesInv t1 := by
+  obtain ⟨_, _, _, _, _, _, hshape, _, _⟩ := descend_spec hd
+  cases hshape with
+  | created hc e1 _ e4 _ _ =>
+    refine ⟨fun q => ?_, ?_⟩
+    · rw [e1, e4]
+      by_cases hqc : q = p ++ [(st.a, m.key st)]
+      · subst hqc; simp [upd]
+      · simp only [List.mem_append, List.mem_singleton, hqc, or_false, upd, if_false]; exact h.mem q
+    · rw [e4, List.nodup_append]
+      refine ⟨h.nodup, by simp, fun a ha b hb => ?_⟩
+      simp only [List.mem_singleton] at hb
+      subst hb
+      intro hab; subst hab
+      have := (h.mem _).1 ha
+      rw [hc] at this; simp at this
+  | pushed _ e1 _ e4 => exact h.of_eq e1 e4
+  | untouched e _ _ => rw [e]; exact h
+
+theorem Sim.nodesInv {m : Mdl} {H : Nat} {t t' : Tree} {p : Path} {s depth : Nat} {used : List Step} {r : Rat}
+    (h : Sim m H t p s depth used t' r) : NodesInv t → NodesInv t' := by
+  induction h with
+  | stop t p s depth st t1 _ _ _ hd =>
+    intro hI
+    exact (NodesInv.descend (t := t.incN p) (hI.of_eq rfl rfl) hd).of_eq rfl rfl
+  | roll t p s depth st t1 n used fr _ _ _ hd _ =>
+    intro hI
+    exact (NodesInv.descend (t := t.incN p) (hI.of_eq rfl rfl) hd).of_eq rfl rfl
+  | deeper t p s depth st t1 t2 used fr _ _ _ hd _ ih =>
+    intro hI
+    exact (ih (NodesInv.descend (t := t.incN p) (hI.of_eq rfl rfl) hd)).of_eq rfl rfl
+
+theorem NodesInv.reroot {t : Tree} (h : NodesInv t) (k : Key) : NodesInv (t.reroot k) := by
+  refine ⟨fun q => ?_, ?_⟩
+  · show q ∈ t.nodes.filterMap _ ↔ t.ex (k :: q) = true
+    rw [← h.mem (k :: q), List.mem_filterMap]
+    constructor
+    · rintro ⟨a, ha, hf⟩
+      cases a with
+      | nil => simp at hf
+      | cons k' r =>
+        by_cases hk : k' = k
+        · subst hk; simp at hf; subst hf; exact ha
+        · simp [hk] at hf
+    · intro hq; exact ⟨k :: q, hq, by simp⟩
+  · show (t.nodes.filterMap _).Nodup
+    apply List.Nodup.filterMap _ h.nodup
+    intro a a' b hb hb'
+    cases a with
+    | nil => simp at hb
+    | cons k1 r1 =>
+      cases a' with
+      | nil => simp at hb'
+      | cons k2 r2 =>
+        by_cases h1 : k1 = k
+        · by_cases h2 : k2 = k
+          · subst h1; subst h2; simp at hb hb'; rw [hb, hb']
+          · simp [h2] at hb'
+        · simp [h1] at hb
+
 /-! ### Whole calls and histories of calls -/
 
 /-- `Sims m H n t useds t'`: `n` simulations from the root, the i-th making exactly the calls `useds[i]` -/
@@ -904,6 +975,7 @@ structure Inv (m : Mdl) (rmin rmax : Rat) (t : Tree) : Prop where
   rng : Bnd m rmin rmax → RngInv m rmin rmax t
   str : StrInv m t
   zero : ZInv t
+  nodes : NodesInv t
   root : t.ex [] = true
 
 theorem Sims.inv {m : Mdl} {rmin rmax : Rat} {H n : Nat} {t t' : Tree} {useds : List (List Step)}
@@ -918,12 +990,13 @@ theorem Sims.inv {m : Mdl} {rmin rmax : Rat} {H n : Nat} {t t' : Tree} {useds : 
     have h2 : Bnd m rmin rmax → RngInv m rmin rmax t1 := fun hb => (hS.rngInv hb hH (by simpa using hbud) (hI.rng hb)).1
     have h3 := hS.strInv hI.str hI.root hs
     have h4 := hS.zInv hI.zero hI.root
+    have h5 := hS.nodesInv hI.nodes
     have hlen := hS.length_le hH
     have hroot : t1.ex [] = true := by
       -- nodes are never removed by a simulation: the root survives because particles were pushed below it
       -- (direct: `ex` only ever gains entries)
       exact Sim.ex_mono hS [] hI.root
-    obtain ⟨i1, i2, i3, i4⟩ := ih hH (by rw [hb2]; exact hbud) ⟨h1, h2, h3, h4, hroot⟩
+    obtain ⟨i1, i2, i3, i4⟩ := ih hH (by rw [hb2]; exact hbud) ⟨h1, h2, h3, h4, h5, hroot⟩
     refine ⟨i1, by rw [i2, hb2], by simp [i3], ?_⟩
     intro u hu
     simp only [List.mem_cons] at hu
@@ -935,7 +1008,7 @@ theorem Sims.inv {m : Mdl} {rmin rmax : Rat} {H n : Nat} {t t' : Tree} {useds : 
 theorem mean_nil : mean [] = 0 := by simp [mean, sumQ]
 
 theorem Inv.fresh (m : Mdl) (rmin rmax : Rat) (parts : List Nat) (nA b : Nat) : Inv m rmin rmax (Tree.fresh parts nA b) := by
-  refine ⟨⟨fun q => ?_, fun q a => rfl, fun q a => ?_, fun q a _ => rfl⟩, fun _ q a x hx => ?_, ⟨fun q hq => ?_, fun q k hq => ?_, fun q k x hx => ?_⟩, fun q hq => ?_, rfl⟩
+  refine ⟨⟨fun q => ?_, fun q a => rfl, fun q a => ?_, fun q a _ => rfl⟩, fun _ q a x hx => ?_, ⟨fun q hq => ?_, fun q k hq => ?_, fun q k x hx => ?_⟩, fun q hq => ?_, ⟨fun q => ?_, ?_⟩, rfl⟩
   · show 0 = sumTo (fun _ => 0) _ + 0
     rw [sumTo_zero _ (fun _ => rfl)]
   · show (0 : Rat) = mean []
@@ -947,6 +1020,8 @@ theorem Inv.fresh (m : Mdl) (rmin rmax : Rat) (parts : List Nat) (nA b : Nat) : 
   · simp [Tree.fresh] at hx
   · simp only [Tree.fresh, beq_eq_false_iff_ne, ne_eq] at hq
     simp [Tree.fresh, hq]
+  · simp [Tree.fresh]
+  · simp [Tree.fresh]
 
 theorem StatInv.of_nA {pend : Path → Nat} {t t1 : Tree} (h : StatInv pend t) (e1 : t1.nN = t.nN) (e2 : t1.aN = t.aN)
     (e3 : t1.aV = t.aV) (e4 : t1.rets = t.rets) (hA : ∀ q, t1.nA q = t.nA q ∨ t.nA q = 0) : StatInv pend t1 := by
@@ -968,9 +1043,9 @@ theorem StatInv.of_nA {pend : Path → Nat} {t t1 : Tree} (h : StatInv pend t) (
 
 theorem Inv.alloc {m : Mdl} {rmin rmax : Rat} {t t1 : Tree} {p : Path} {n : Nat} (h : Inv m rmin rmax t)
     (hex : t.ex p = true) (ha : t.alloc p n = some t1) : Inv m rmin rmax t1 ∧ t1.budget = t.budget := by
-  obtain ⟨a1, a2, a3, a4, a5, a6, a7, _, _, a10⟩ := alloc_spec ha
+  obtain ⟨a1, a2, a3, a4, a5, a6, a7, a8, _, a10⟩ := alloc_spec ha
   refine ⟨⟨h.stat.of_nA a1 a2 a3 a4 (fun q => ?_), fun hb => (h.rng hb).of_eq a4 a5, h.str.of_eq a6 a7, fun q hq => ?_,
-    by rw [a6]; exact h.root⟩, a5⟩
+    h.nodes.of_eq a6 a8, by rw [a6]; exact h.root⟩, a5⟩
   · rcases a10 q with hq | ⟨_, hq⟩
     · left; exact hq
     · right; exact hq
@@ -985,7 +1060,7 @@ theorem Inv.alloc {m : Mdl} {rmin rmax : Rat} {t t1 : Tree} {p : Path} {n : Nat}
 
 theorem Inv.withBudget {m : Mdl} {rmin rmax : Rat} {t : Tree} (h : Inv m rmin rmax t) (b : Nat) :
     Inv m rmin rmax (t.withBudget b) ∧ b ≤ (t.withBudget b).budget := by
-  refine ⟨⟨h.stat.of_nA rfl rfl rfl rfl (fun _ => Or.inl rfl), fun hb q a x hx => ?_, h.str.of_eq rfl rfl, h.zero, h.root⟩, ?_⟩
+  refine ⟨⟨h.stat.of_nA rfl rfl rfl rfl (fun _ => Or.inl rfl), fun hb q a x hx => ?_, h.str.of_eq rfl rfl, h.zero, h.nodes.of_eq rfl rfl, h.root⟩, ?_⟩
   · obtain ⟨k, h1, h2, h3⟩ := h.rng hb q a x hx
     refine ⟨k, h1, ?_, h3⟩
     show k + q.length ≤ if t.budget < b then b else t.budget
@@ -999,7 +1074,7 @@ theorem Inv.reroot {m : Mdl} {rmin rmax : Rat} {t : Tree} (h : Inv m rmin rmax t
   refine ⟨⟨fun q => h.stat.cnt (k :: q), fun q a => h.stat.len (k :: q) a, fun q a => h.stat.avg (k :: q) a,
     fun q a hqa => h.stat.out (k :: q) a hqa⟩, fun hb q a x hx => ?_, ⟨fun q hq => h.str.nex (k :: q) hq,
     fun q k' hq => h.str.pre (k :: q) k' hq, fun q k' x hx => h.str.par (k :: q) k' x hx⟩,
-    fun q hq => h.zero (k :: q) hq, hex⟩
+    fun q hq => h.zero (k :: q) hq, h.nodes.reroot k, hex⟩
   obtain ⟨j, h1, h2, h3⟩ := h.rng hb (k :: q) a x hx
   refine ⟨j, h1, ?_, h3⟩
   show j + q.length ≤ t.budget - 1
@@ -1099,6 +1174,11 @@ theorem new_nodes_are_empty {m : Mdl} {t : Tree} (h : Reach m t) (q : Path) (hq 
   have hI := h.inv 0 0
   obtain ⟨z1, z2, z3⟩ := hI.zero q hq
   exact ⟨z1, z2, hI.str.nex q hq, z3⟩
+
+/-- **nodes_exact.**  After any history the model's node list is exactly the set of existing nodes, without
+    repetition: comparing its length and the membership of every dumped node decides equality of the node sets. -/
+theorem nodes_exact {m : Mdl} {t : Tree} (h : Reach m t) : (∀ q, q ∈ t.nodes ↔ t.ex q = true) ∧ t.nodes.Nodup :=
+  ⟨(h.inv 0 0).nodes.mem, (h.inv 0 0).nodes.nodup⟩
 
 /-- the calls of one simulation are consecutive transitions: each is made on the state the previous one
     returned, so the i-th call is made on a state exactly `i` transitions below the simulation's root state -/
